@@ -1,3 +1,4 @@
+pub mod apiprobe;
 pub mod iofault;
 pub mod par;
 pub mod privdrop;
